@@ -3,6 +3,11 @@
 // seeded scheduler before every metadata operation, counts its mutating steps
 // and can be made to fail-stop (crash) at a chosen step, optionally tearing
 // the write call it dies in.
+//
+// Two back ends: an in-memory object store with atomic put and put-if-absent
+// (a stub), and the repository's real storage.FileSystem on a private
+// directory (real code; its put is create/truncate + visible writes, and the
+// inside of its PutIfNotExists is reached through a simhook point).
 package simdisk
 
 import (
@@ -13,11 +18,14 @@ import (
 	"hash/fnv"
 	"io"
 	"io/fs"
+	"os"
+	"path/filepath"
 	"sort"
 	"strings"
 	"sync"
 	"syscall"
 
+	"github.com/brimdata/super/pkg/simhook"
 	"github.com/brimdata/super/pkg/storage"
 	"verifsim/kernel"
 )
@@ -28,27 +36,30 @@ const (
 	// Atomic models an object store with conditional put: a Put becomes
 	// visible at Close, PutIfNotExists is one atomic step.
 	Atomic Mode = iota
-	// FileLike models the local file engine: Put creates/truncates at once,
-	// every Write call is visible as it happens, PutIfNotExists is
-	// create(O_EXCL) then fill.
-	FileLike
+	// FileFS is the real local file engine on a per-run directory.
+	FileFS
 )
 
 func (m Mode) String() string {
 	if m == Atomic {
 		return "objstore"
 	}
-	return "filelike"
+	return "filefs"
 }
 
 var ErrCrashed = errors.New("simdisk: process has crashed")
+
+type crashPanic struct{}
 
 type Disk struct {
 	Mode  Mode
 	Sched *kernel.Sched
 
 	mu    sync.Mutex
-	files map[string][]byte
+	files map[string][]byte // Atomic mode
+	fs    *storage.FileSystem
+	dir   string
+	cur   *Handle // handle currently inside the real engine (hook attribution)
 	// Open (not yet closed) metadata puts, for "no metadata put is open"
 	// instants.
 	openMetaPuts int
@@ -58,44 +69,52 @@ type Disk struct {
 	DataRanges map[string][]int // data-object path -> [off,len,...] of ReadAt calls
 }
 
+func shmDir() string {
+	if st, err := os.Stat("/dev/shm"); err == nil && st.IsDir() {
+		return "/dev/shm"
+	}
+	return os.TempDir()
+}
+
 func NewDisk(mode Mode, sched *kernel.Sched) *Disk {
-	return &Disk{Mode: mode, Sched: sched, files: map[string][]byte{}, Ops: map[string]int{},
+	d := &Disk{Mode: mode, Sched: sched, files: map[string][]byte{}, Ops: map[string]int{},
 		DataReads: map[string]int{}, DataRanges: map[string][]int{}}
+	if mode == FileFS {
+		dir, err := os.MkdirTemp(shmDir(), "verif-simlake-")
+		if err != nil {
+			panic(err)
+		}
+		d.dir = dir
+		d.fs = storage.NewFileSystem()
+		simhook.Handler = d.hook
+	} else {
+		simhook.Handler = nil
+	}
+	return d
 }
 
-// Image is a copy of everything durable.
-type Image map[string][]byte
-
-func (d *Disk) Snapshot() Image {
-	d.mu.Lock()
-	defer d.mu.Unlock()
-	img := make(Image, len(d.files))
-	for k, v := range d.files {
-		img[k] = append([]byte(nil), v...)
+// Close removes the run's directory.
+func (d *Disk) Close() {
+	if d.Mode == FileFS {
+		simhook.Handler = nil
+		os.RemoveAll(d.dir)
 	}
-	return img
 }
 
-func (d *Disk) Restore(img Image) {
-	d.mu.Lock()
-	defer d.mu.Unlock()
-	d.files = make(map[string][]byte, len(img))
-	for k, v := range img {
-		d.files[k] = append([]byte(nil), v...)
+// Root is the lake root URI on this disk.
+func (d *Disk) Root() *storage.URI {
+	if d.Mode == FileFS {
+		return storage.MustParseURI("file://" + filepath.Join(d.dir, "simlake"))
 	}
-	d.openMetaPuts = 0
+	return storage.MustParseURI("file:///simlake")
 }
 
-// Paths lists all paths (sorted).
-func (d *Disk) Paths() []string {
-	d.mu.Lock()
-	defer d.mu.Unlock()
-	var out []string
-	for k := range d.files {
-		out = append(out, k)
+// rel strips the run-specific directory so that keys and logs are stable.
+func (d *Disk) rel(path string) string {
+	if d.Mode == FileFS {
+		return strings.TrimPrefix(path, d.dir)
 	}
-	sort.Strings(out)
-	return out
+	return path
 }
 
 func (d *Disk) MetaPutOpen() bool {
@@ -105,7 +124,26 @@ func (d *Disk) MetaPutOpen() bool {
 }
 
 func (d *Disk) count(op string) {
+	d.mu.Lock()
 	d.Ops[op]++
+	d.mu.Unlock()
+}
+
+// hook is installed as simhook.Handler while a FileFS disk exists.
+func (d *Disk) hook(site string, key uint64) {
+	if !strings.HasPrefix(site, "storage.file.") {
+		return
+	}
+	d.mu.Lock()
+	h := d.cur
+	d.mu.Unlock()
+	if h == nil {
+		return
+	}
+	h.sched(site, h.curPath)
+	if h.step(site + " " + d.rel(h.curPath)) {
+		panic(crashPanic{})
+	}
 }
 
 // Handle is one client's (one process's) view of the disk.
@@ -114,6 +152,9 @@ type Handle struct {
 	Client string
 	// Yield makes the handle park at the scheduler before metadata ops.
 	Yield bool
+	// ReadOnly makes every mutation a successful no-op: the observer must
+	// not leave derived files (snapshots) behind for the clients to find.
+	ReadOnly bool
 
 	mu      sync.Mutex
 	dead    bool
@@ -124,6 +165,7 @@ type Handle struct {
 	CrashedAt string // description of the step the handle died at
 	StepLog   []string
 	KeepLog   bool
+	curPath   string
 }
 
 func (d *Disk) NewHandle(client string, yield bool) *Handle {
@@ -153,12 +195,9 @@ func pathKey(path string) uint64 {
 // sched parks the caller (metadata ops; data create/close/delete).
 func (h *Handle) sched(op, path string) {
 	if h.Yield && h.d.Sched != nil {
-		h.d.Sched.Yield(h.Client, op, pathKey(shortPath(path)))
+		h.d.Sched.Yield(h.Client, op, pathKey(h.d.rel(path)))
 	}
 }
-
-// shortPath drops run-specific prefixes so scheduler keys are stable.
-func shortPath(p string) string { return p }
 
 // step accounts for one mutating step and reports whether the process dies
 // at it.  It must be called with no lock held.
@@ -199,25 +238,26 @@ func notExist(u *storage.URI) error {
 	return fmt.Errorf("%s: %w", u, fs.ErrNotExist)
 }
 
+// reader wraps a storage.Reader to refuse service to a dead process and to
+// count data-object reads.
 type reader struct {
-	*bytes.Reader
-	size int64
+	storage.Reader
 	h    *Handle
 	path string
 	data bool
 }
 
-func (r *reader) Close() error         { return nil }
-func (r *reader) Size() (int64, error) { return r.size, nil }
+func (r *reader) Size() (int64, error) { return storage.Size(r.Reader) }
 func (r *reader) ReadAt(p []byte, off int64) (int, error) {
 	if err := r.h.alive(); err != nil {
 		return 0, err
 	}
 	if r.data {
-		r.h.d.mu.Lock()
-		r.h.d.DataReads[r.path]++
-		r.h.d.DataRanges[r.path] = append(r.h.d.DataRanges[r.path], int(off), len(p))
-		r.h.d.mu.Unlock()
+		d := r.h.d
+		d.mu.Lock()
+		d.DataReads[r.path]++
+		d.DataRanges[r.path] = append(d.DataRanges[r.path], int(off), len(p))
+		d.mu.Unlock()
 	}
 	return r.Reader.ReadAt(p, off)
 }
@@ -226,14 +266,23 @@ func (r *reader) Read(p []byte) (int, error) {
 		return 0, err
 	}
 	if r.data {
-		r.h.d.mu.Lock()
-		r.h.d.DataReads[r.path]++
-		r.h.d.mu.Unlock()
+		d := r.h.d
+		d.mu.Lock()
+		d.DataReads[r.path]++
+		d.mu.Unlock()
 	}
 	return r.Reader.Read(p)
 }
 
-func (h *Handle) Get(_ context.Context, u *storage.URI) (storage.Reader, error) {
+type memReader struct {
+	*bytes.Reader
+	size int64
+}
+
+func (memReader) Close() error           { return nil }
+func (m memReader) Size() (int64, error) { return m.size, nil }
+
+func (h *Handle) Get(ctx context.Context, u *storage.URI) (storage.Reader, error) {
 	path := u.Path
 	if !isData(path) {
 		h.sched("get", path)
@@ -241,61 +290,81 @@ func (h *Handle) Get(_ context.Context, u *storage.URI) (storage.Reader, error) 
 	if err := h.alive(); err != nil {
 		return nil, err
 	}
-	h.d.mu.Lock()
-	defer h.d.mu.Unlock()
-	h.d.count("get")
-	b, ok := h.d.files[path]
+	d := h.d
+	d.count("get")
+	rel := d.rel(path)
+	if d.Mode == FileFS {
+		r, err := d.fs.Get(ctx, u)
+		if err != nil {
+			return nil, err
+		}
+		return &reader{Reader: r, h: h, path: rel, data: isData(path)}, nil
+	}
+	d.mu.Lock()
+	b, ok := d.files[path]
+	d.mu.Unlock()
 	if !ok {
 		return nil, notExist(u)
 	}
 	c := append([]byte(nil), b...)
-	return &reader{Reader: bytes.NewReader(c), size: int64(len(c)), h: h, path: path, data: isData(path)}, nil
+	return &reader{Reader: memReader{bytes.NewReader(c), int64(len(c))}, h: h, path: rel, data: isData(path)}, nil
 }
 
 type writer struct {
 	h      *Handle
 	path   string
-	buf    []byte
+	buf    []byte         // Atomic mode
+	file   io.WriteCloser // FileFS mode
 	closed bool
 	meta   bool
 }
 
-func (h *Handle) Put(_ context.Context, u *storage.URI) (io.WriteCloser, error) {
+type discard struct{}
+
+func (discard) Write(p []byte) (int, error) { return len(p), nil }
+func (discard) Close() error                { return nil }
+
+func (h *Handle) Put(ctx context.Context, u *storage.URI) (io.WriteCloser, error) {
+	if h.ReadOnly {
+		return discard{}, nil
+	}
 	path := u.Path
 	h.sched("put", path)
-	if h.step("put-create " + path) {
+	d := h.d
+	if h.step("put-create " + d.rel(path)) {
 		return nil, ErrCrashed
 	}
-	d := h.d
-	d.mu.Lock()
-	defer d.mu.Unlock()
 	d.count("put")
 	w := &writer{h: h, path: path, meta: !isData(path)}
-	if d.Mode == FileLike {
-		d.files[path] = []byte{}
+	if d.Mode == FileFS {
+		f, err := d.fs.Put(ctx, u)
+		if err != nil {
+			return nil, err
+		}
+		w.file = f
 	}
 	if w.meta {
+		d.mu.Lock()
 		d.openMetaPuts++
+		d.mu.Unlock()
 	}
 	return w, nil
 }
 
 func (w *writer) Write(p []byte) (int, error) {
 	h := w.h
+	d := h.d
 	if w.meta {
 		h.sched("write", w.path)
 	}
-	die, now := h.step2(fmt.Sprintf("write %s (%d bytes)", w.path, len(p)))
-	d := h.d
-	d.mu.Lock()
-	defer d.mu.Unlock()
+	die, now := h.step2(fmt.Sprintf("write %s (%d bytes)", d.rel(w.path), len(p)))
 	if die {
 		// Torn write: a prefix of this call survives (file semantics only;
 		// on an object store nothing is visible before Close anyway).
-		if now && h.Tear > 0 && d.Mode == FileLike && !w.closed {
+		if now && h.Tear > 0 && d.Mode == FileFS && !w.closed {
 			n := len(p) * h.Tear / 8
-			if _, ok := d.files[w.path]; ok && n > 0 {
-				d.files[w.path] = append(d.files[w.path], p[:n]...)
+			if n > 0 {
+				w.file.Write(p[:n])
 			}
 			h.mu.Lock()
 			h.CrashedAt += fmt.Sprintf(" torn after %d bytes", n)
@@ -304,23 +373,24 @@ func (w *writer) Write(p []byte) (int, error) {
 		w.release()
 		return 0, ErrCrashed
 	}
-	if d.Mode == FileLike {
-		if _, ok := d.files[w.path]; ok {
-			d.files[w.path] = append(d.files[w.path], p...)
-		}
-		// A file removed while open keeps accepting writes into the void.
-	} else {
-		w.buf = append(w.buf, p...)
+	if d.Mode == FileFS {
+		return w.file.Write(p)
 	}
+	w.buf = append(w.buf, p...)
 	return len(p), nil
 }
 
-// release must be called with d.mu held.
 func (w *writer) release() {
 	if !w.closed {
 		w.closed = true
+		if w.file != nil {
+			w.file.Close() // the kernel closes a dead process's files
+		}
 		if w.meta {
-			w.h.d.openMetaPuts--
+			d := w.h.d
+			d.mu.Lock()
+			d.openMetaPuts--
+			d.mu.Unlock()
 		}
 	}
 }
@@ -331,16 +401,16 @@ func (w *writer) Close() error {
 		return nil
 	}
 	h.sched("close", w.path)
-	die := h.step("put-close " + w.path)
 	d := h.d
-	d.mu.Lock()
-	defer d.mu.Unlock()
+	die := h.step("put-close " + d.rel(w.path))
 	w.release()
 	if die {
 		return ErrCrashed
 	}
 	if d.Mode == Atomic {
+		d.mu.Lock()
 		d.files[w.path] = w.buf
+		d.mu.Unlock()
 	}
 	return nil
 }
@@ -349,60 +419,64 @@ func existsErr(path string) error {
 	return &fs.PathError{Op: "open", Path: path, Err: syscall.EEXIST}
 }
 
-func (h *Handle) PutIfNotExists(_ context.Context, u *storage.URI, b []byte) error {
+func (h *Handle) PutIfNotExists(ctx context.Context, u *storage.URI, b []byte) (err error) {
+	if h.ReadOnly {
+		return nil
+	}
 	path := u.Path
 	h.sched("putifnotexists", path)
 	d := h.d
+	if h.step("putifnotexists " + d.rel(path)) {
+		return ErrCrashed
+	}
+	d.count("putifnotexists")
 	if d.Mode == Atomic {
-		if h.step("putifnotexists " + path) {
-			return ErrCrashed
-		}
 		d.mu.Lock()
 		defer d.mu.Unlock()
-		d.count("putifnotexists")
 		if _, ok := d.files[path]; ok {
 			return existsErr(path)
 		}
 		d.files[path] = append([]byte(nil), b...)
 		return nil
 	}
-	// File semantics: create with O_EXCL, then fill.
-	if h.step("putifnotexists-create " + path) {
-		return ErrCrashed
-	}
+	// Real file engine; its inside is reached through the simhook point.
 	d.mu.Lock()
-	d.count("putifnotexists")
-	if _, ok := d.files[path]; ok {
-		d.mu.Unlock()
-		return existsErr(path)
-	}
-	d.files[path] = []byte{}
+	d.cur = h
 	d.openMetaPuts++
 	d.mu.Unlock()
-	h.sched("putifnotexists-fill", path)
-	die := h.step("putifnotexists-fill " + path)
-	d.mu.Lock()
-	defer d.mu.Unlock()
-	d.openMetaPuts--
-	if die {
-		return ErrCrashed
-	}
-	if _, ok := d.files[path]; ok {
-		d.files[path] = append([]byte(nil), b...)
-	}
-	return nil
+	h.curPath = path
+	defer func() {
+		d.mu.Lock()
+		d.cur = nil
+		d.openMetaPuts--
+		d.mu.Unlock()
+		if r := recover(); r != nil {
+			if _, ok := r.(crashPanic); ok {
+				err = ErrCrashed
+				return
+			}
+			panic(r)
+		}
+	}()
+	return d.fs.PutIfNotExists(ctx, u, b)
 }
 
-func (h *Handle) Delete(_ context.Context, u *storage.URI) error {
+func (h *Handle) Delete(ctx context.Context, u *storage.URI) error {
+	if h.ReadOnly {
+		return nil
+	}
 	path := u.Path
 	h.sched("delete", path)
-	if h.step("delete " + path) {
+	d := h.d
+	if h.step("delete " + d.rel(path)) {
 		return ErrCrashed
 	}
-	d := h.d
+	d.count("delete")
+	if d.Mode == FileFS {
+		return d.fs.Delete(ctx, u)
+	}
 	d.mu.Lock()
 	defer d.mu.Unlock()
-	d.count("delete")
 	if _, ok := d.files[path]; !ok {
 		return notExist(u)
 	}
@@ -410,16 +484,22 @@ func (h *Handle) Delete(_ context.Context, u *storage.URI) error {
 	return nil
 }
 
-func (h *Handle) DeleteByPrefix(_ context.Context, u *storage.URI) error {
+func (h *Handle) DeleteByPrefix(ctx context.Context, u *storage.URI) error {
+	if h.ReadOnly {
+		return nil
+	}
 	path := u.Path
 	h.sched("deletebyprefix", path)
-	if h.step("deletebyprefix " + path) {
+	d := h.d
+	if h.step("deletebyprefix " + d.rel(path)) {
 		return ErrCrashed
 	}
-	d := h.d
+	d.count("deletebyprefix")
+	if d.Mode == FileFS {
+		return d.fs.DeleteByPrefix(ctx, u)
+	}
 	d.mu.Lock()
 	defer d.mu.Unlock()
-	d.count("deletebyprefix")
 	prefix := strings.TrimSuffix(path, "/") + "/"
 	for k := range d.files {
 		if k == path || strings.HasPrefix(k, prefix) {
@@ -429,7 +509,7 @@ func (h *Handle) DeleteByPrefix(_ context.Context, u *storage.URI) error {
 	return nil
 }
 
-func (h *Handle) Exists(_ context.Context, u *storage.URI) (bool, error) {
+func (h *Handle) Exists(ctx context.Context, u *storage.URI) (bool, error) {
 	path := u.Path
 	if !isData(path) {
 		h.sched("exists", path)
@@ -438,14 +518,17 @@ func (h *Handle) Exists(_ context.Context, u *storage.URI) (bool, error) {
 		return false, err
 	}
 	d := h.d
+	d.count("exists")
+	if d.Mode == FileFS {
+		return d.fs.Exists(ctx, u)
+	}
 	d.mu.Lock()
 	defer d.mu.Unlock()
-	d.count("exists")
 	_, ok := d.files[path]
 	return ok, nil
 }
 
-func (h *Handle) Size(_ context.Context, u *storage.URI) (int64, error) {
+func (h *Handle) Size(ctx context.Context, u *storage.URI) (int64, error) {
 	path := u.Path
 	if !isData(path) {
 		h.sched("size", path)
@@ -454,9 +537,12 @@ func (h *Handle) Size(_ context.Context, u *storage.URI) (int64, error) {
 		return 0, err
 	}
 	d := h.d
+	d.count("size")
+	if d.Mode == FileFS {
+		return d.fs.Size(ctx, u)
+	}
 	d.mu.Lock()
 	defer d.mu.Unlock()
-	d.count("size")
 	b, ok := d.files[path]
 	if !ok {
 		return 0, notExist(u)
@@ -464,16 +550,21 @@ func (h *Handle) Size(_ context.Context, u *storage.URI) (int64, error) {
 	return int64(len(b)), nil
 }
 
-func (h *Handle) List(_ context.Context, u *storage.URI) ([]storage.Info, error) {
+func (h *Handle) List(ctx context.Context, u *storage.URI) ([]storage.Info, error) {
 	path := u.Path
 	h.sched("list", path)
 	if err := h.alive(); err != nil {
 		return nil, err
 	}
 	d := h.d
+	d.count("list")
+	if d.Mode == FileFS {
+		infos, err := d.fs.List(ctx, u)
+		sort.Slice(infos, func(i, j int) bool { return infos[i].Name < infos[j].Name })
+		return infos, err
+	}
 	d.mu.Lock()
 	defer d.mu.Unlock()
-	d.count("list")
 	prefix := strings.TrimSuffix(path, "/") + "/"
 	seen := map[string]int64{}
 	for k, v := range d.files {
